@@ -44,9 +44,24 @@ class RemoveDebug(SuiteTransformer):
 
         return False
 
+    def without_debug(self, node_list):
+        """
+        The statements that run when __debug__ is False
+
+        A removed `if __debug__:` statement is replaced by its else branch (which may be another `if __debug__`)
+        """
+
+        statements = []
+        for node in node_list:
+            if self.can_remove(node):
+                statements.extend(self.without_debug(node.orelse))
+            else:
+                statements.append(node)
+        return statements
+
     def suite(self, node_list, parent):
 
-        without_debug = [self.visit(a) for a in filter(lambda n: not self.can_remove(n), node_list)]
+        without_debug = [self.visit(a) for a in self.without_debug(node_list)]
 
         if len(without_debug) == 0:
             if isinstance(parent, ast.Module):
